@@ -30,7 +30,25 @@ AutoEvaluator
     X[j, :] is X[j]; X[len(X) - k] is X[-k]; f(*g(...), x) fills the leading parameters of lfilter-like callees;
     np.full(n, True / False / c) is the constant like np.ones / np.zeros; `pv = PV` for two arrays is a second name, not a new array.
 
-`degree(...)` computes the degree of homogeneity of a value under a rescaling of designated roots (dimensional analysis).
+  * (pass 4) effects are followed or declared lost: `B = A.copy()` / np.array(A) is a new array (stores into B leave A alone), `X[:] = v` outside
+    loops and tests is a new content with the old shape, `f(..., out=X[j])` is a store into X[j], allocations inside a list / tuple / dict display
+    or a comprehension over a literal sequence are arrays of their own (`<arr:k>`), loops over literal sequences (zip / enumerate / dict.items() /
+    range(const)) are executed element by element, counted `while i < n: ...; i += 1` loops are `for i in range(...)`, early `continue` / `return`
+    inside the arm of a *decided* `if` (and inside with / try bodies) keep guarding the rest of the enclosing block, `match` statements over
+    literals are if / elif chains.  A store through a name that does not hold a view of a known array, an in-place operator on such a parameter,
+    a tracked array handed to an own-module function that is not followed, or a statement the evaluator does not execute is recorded in
+    `Trace.lost`; c10.Careful turns every failed comparison of a rule whose evaluations lost an effect into "not decided" (exit 2);
+  * (pass 4) more spellings with one value: np.greater_equal / operator.ge / np.subtract / np.multiply(..., out=) / np.negative / np.fabs / np.amax,
+    np.r_ / np.c_ / np.append / np.insert(x, 0, v) (concatenations), np.where(c, True, False), np.arange(0, n, 1, dtype=float), x.values /
+    x.to_numpy(), T.loc[:, c] / T.iloc[:, k] / T.amp / T[:, k] for a cycle table T (columns amp, mean, count), TABLE[key] of a literal dict,
+    a character of a string literal, `"%d" % x`, sep.join(...), f"{4}", f(**{...}), callees reached through a local (alias, operator table chosen
+    by a ternary, functools.partial, nested def), module constants bound by tuple assignment or computed from earlier constants, zip() as long as
+    its shortest argument, (s * X)[k] = s * X[k] for a full reduction s, comp[...][k] / np.array([[a, b] for ...])[:, 1];
+  * (pass 4) string literals compare by their text and `x in (literals)` is decided, so a regime can be selected by binding a parameter to
+    its literal.
+
+`degree(...)` computes the degree of homogeneity of a value under a rescaling of designated roots (dimensional analysis); `Degrees.asof(v, seq)`
+judges arrays with the content they had when the evaluation clock stood at `seq`.
 """
 from __future__ import annotations
 
